@@ -11,5 +11,6 @@ import MCHap.Properties.C16
 #print axioms MCHap.C16.unmasked_positive_prior
 #print axioms MCHap.C16.no_usable_allele_is_filtered
 #print axioms MCHap.C16.call_exact_same_scenario
-#print axioms MCHap.C16.arrays_have_record_length_partial
+#print axioms MCHap.C16.arrays_have_record_length
+#print axioms MCHap.C16.relabel_default_n_allele_iff
 #print axioms MCHap.C16.relabel_n_allele_counterexample
